@@ -216,6 +216,14 @@ fn pk_case(rec: &mut Rec, ctx: &Ctx, idx: u64, rng: &mut ChaCha20Rng) {
   for (desc, inp) in inputs {
     rec.evals += 1;
     rec.ev("pk_malformed_inputs");
+    if rec.counters.get("pk_malformed_inputs").cloned().unwrap_or(0) % 16 == 0 {
+      // ... and a refused public key does not disturb loading the honest one afterwards
+      let _ = quiet(rec, || ServerPublicKey::load_from_bincode(&inp).is_ok());
+      if ServerPublicKey::load_from_bincode(&b).ok().as_ref() != Some(&pk) {
+        rec.violation("pk-valid-rejected:after-other-input", format!("the honest key failed to load after the input {}", desc), json!({"input": hex_short(&inp)}));
+        return;
+      }
+    }
     rec.case(&("pkbytes", h64(&[&inp])));
     let real = quiet(rec, || ServerPublicKey::load_from_bincode(&inp).ok().map(|p| p.serialize_to_bincode().unwrap_or_default()));
     let model = model_pk(&inp).map(|(ba, m)| model_pk_encode(&ba, &m));
@@ -311,6 +319,8 @@ fn proof_case(rec: &mut Rec, _ctx: &Ctx, idx: u64, rng: &mut ChaCha20Rng) {
 /// exactly those bytes (never a zero-filled or truncated value)
 fn json_case(rec: &mut Rec, _ctx: &Ctx, idx: u64, rng: &mut ChaCha20Rng) {
   use base64::{engine::Engine as _, prelude::BASE64_STANDARD};
+  let good_bytes = rand_bytes(rng, 32);
+  let good_js = format!("{{\"output\":\"{}\",\"proof\":null}}", BASE64_STANDARD.encode(&good_bytes));
   for (desc, s) in crate::hostile::b64_output_strings(rng) {
     let js = format!("{{\"output\":{},\"proof\":null}}", serde_json::to_string(&s).unwrap_or_default());
     rec.evals += 1;
@@ -329,6 +339,21 @@ fn json_case(rec: &mut Rec, _ctx: &Ctx, idx: u64, rng: &mut ChaCha20Rng) {
       ),
       (Some(None), Some(_)) => rec.violation("json-valid-rejected", format!("a well-formed evaluation was rejected ({})", desc), json!({"json": js})),
       (None, _) => {}
+    }
+    // whatever happened to that input, the next well-formed evaluation on this
+    // thread must restore to exactly its own value
+    rec.ev("json_valid_after_other_input");
+    match quiet(rec, || serde_json::from_str::<Evaluation>(&good_js).ok().map(|e| e.output.as_bytes().to_vec())) {
+      Some(Some(v)) if v == good_bytes => {}
+      Some(other) => {
+        rec.violation(
+          "json-valid-rejected:after-other-input",
+          format!("a well-formed evaluation decoded right after the input {:?} ({}) was {}", s, desc, if other.is_some() { "restored to other bytes" } else { "rejected" }),
+          json!({"previous_json": js, "json": good_js}),
+        );
+        return;
+      }
+      None => {}
     }
   }
   // a present but malformed proof never yields an evaluation with a proof
